@@ -87,44 +87,104 @@ def _hex(node):
     return v if isinstance(v, int) else None
 
 
+REF_HEAD = """
+def head(tick):
+    tick = int(tick)
+    a = abs(tick)
+    assert a <= 887272
+    return a
+"""
+REF_HEAD_NOINT = """
+def head(tick):
+    a = abs(tick)
+    assert a <= 887272
+    return a
+"""
+REF_TAIL = """
+def tail(tick, ratio):
+    if tick > 0:
+        ratio = (2 ** 256 - 1) // ratio
+    return (ratio >> 32) + (0 if ratio % (1 << 32) == 0 else 1)
+"""
+
+
+def _normalise(body):
+    """Drop bare annotations; `if c: x = a / else: x = b` (one Name, both arms) becomes `x = a if c else b`."""
+    out = []
+    for s in body:
+        if isinstance(s, ast.Expr) and isinstance(s.value, ast.Constant):
+            continue
+        if isinstance(s, ast.AnnAssign) and s.value is None:
+            continue
+        if isinstance(s, ast.If) and len(s.body) == 1 and len(s.orelse) == 1 \
+                and all(isinstance(x, ast.Assign) and len(x.targets) == 1 and isinstance(x.targets[0], ast.Name) for x in (s.body[0], s.orelse[0])) \
+                and s.body[0].targets[0].id == s.orelse[0].targets[0].id:
+            n = ast.Assign(targets=[ast.Name(id=s.body[0].targets[0].id, ctx=ast.Store())],
+                           value=ast.IfExp(test=s.test, body=s.body[0].value, orelse=s.orelse[0].value))
+            ast.copy_location(n, s)
+            ast.fix_missing_locations(n)
+            out.append(n)
+            continue
+        out.append(s)
+    return out
+
+
+def _mask_test(t):
+    """`name & C != 0` -> (name, C)"""
+    if isinstance(t, ast.Compare) and len(t.ops) == 1 and isinstance(t.ops[0], ast.NotEq) and _hex(t.comparators[0]) == 0 \
+            and isinstance(t.left, ast.BinOp) and isinstance(t.left.op, ast.BitAnd):
+        l, r = t.left.left, t.left.right
+        if isinstance(l, ast.Name) and _hex(r) is not None:
+            return l.id, _hex(r)
+        if isinstance(r, ast.Name) and _hex(l) is not None:
+            return r.id, _hex(l)
+    return None
+
+
+def _piece_paths(model, f, name, params, stmts, retname=None):
+    src = f"def {name}({', '.join(params)}):\n" + "".join("    " + ln + "\n" for st in stmts for ln in ast.unparse(st).splitlines())
+    if retname is not None:
+        src += f"    return {retname}\n"
+    if not stmts and retname is None:
+        src += "    pass\n"
+    return _src_paths(model, f, src)
+
+
+def _src_paths(model, f, src):
+    from ..rules.formula import ref_func
+    from ..model import FuncInfo
+    rf = ref_func(model, f, src)
+    rf = FuncInfo(f.module, None, rf.node)
+    return Evaluator(model)._function_paths_ctx(rf, {}, None, 0, None)
+
+
 def tickmath_shape(model, res):
+    from ..vn import same_function
     f = model.func("uniswap.liquitidy_math.get_sqrt_ratio_at_tick")
-    body = [s for s in f.node.body if not (isinstance(s, ast.Expr) and isinstance(s.value, ast.Constant))]
+    body = _normalise(f.node.body)
     tick = f.params[0]
     problems = []
-
-    def canon(node, names):
-        ev = Evaluator(model)
-        alts = ev.ev(node, {n: sym(n) for n in names}, Ctx(f, 0))
-        if len(alts) != 1 or alts[0][0]:
-            raise Unreadable("piecewise")
-        return alts[0][1]
-
-    i = 0
-    # optional int() coercion
-    if isinstance(body[i], ast.Assign) and ast.unparse(body[i]) == f"{tick} = int({tick})":
-        i += 1
-    # abs
-    st = body[i]
-    absvar = None
-    if isinstance(st, ast.Assign) and isinstance(st.targets[0], ast.Name):
-        try:
-            v = canon(st.value, [tick])
-            if v == abs_of(sym(tick)):
-                absvar = st.targets[0].id
-        except Unreadable:
-            pass
-    if absvar is None:
-        raise AnalysisError("C06: |tick| definition not recognised in get_sqrt_ratio_at_tick")
-    i += 1
-    # bound assert
-    st = body[i]
-    bound_ok = isinstance(st, ast.Assert) and ast.unparse(st.test) in (f"{absvar} <= {MAX_TICK}", f"{MAX_TICK} >= {absvar}")
-    res.ob("R-SHAPE", f"|tick| <= {MAX_TICK} is asserted", f.loc(st), ok=bound_ok)
-    if not bound_ok:
-        problems.append((st, f"the tick bound assertion is `{ast.unparse(st)[:60]}`, expected |tick| <= {MAX_TICK}"))
-    else:
-        i += 1
+    # the first statement that tests a bit of |tick| starts the product; everything before it defines |tick|
+    first = None
+    for k, st in enumerate(body):
+        t = st.value.test if isinstance(st, (ast.Assign, ast.AnnAssign)) and isinstance(st.value, ast.IfExp) else (
+            st.test if isinstance(st, ast.If) else None)
+        if t is not None and _mask_test(t) is not None:
+            first = k
+            absvar = _mask_test(t)[0]
+            break
+    if first is None:
+        raise AnalysisError("C06: no `|tick| & mask` step found in get_sqrt_ratio_at_tick")
+    try:
+        head = _piece_paths(model, f, "head", [tick], body[:first], absvar)
+        ok_head = any(same_function(head, _src_paths(model, f, r))[0] for r in (REF_HEAD, REF_HEAD_NOINT))
+        why = same_function(head, _src_paths(model, f, REF_HEAD))[1]
+    except Unreadable as e:
+        raise AnalysisError(f"C06: |tick| definition not readable in get_sqrt_ratio_at_tick ({e})")
+    res.ob("R-SHAPE", f"the masks are applied to |tick|, and |tick| <= {MAX_TICK} is asserted before", f.loc(body[0]), ok=ok_head)
+    if not ok_head:
+        problems.append((body[max(0, first - 1)], f"the head of the function is not `a = |tick|; assert a <= {MAX_TICK}`: {why[:300]}"))
+    i = first
     # initial ratio
     st = body[i]
     consts = {}
@@ -133,11 +193,7 @@ def tickmath_shape(model, res):
     if isinstance(st, (ast.Assign, ast.AnnAssign)) and isinstance(st.value, ast.IfExp):
         tg = st.targets[0] if isinstance(st, ast.Assign) else st.target
         rvar = tg.id if isinstance(tg, ast.Name) else None
-        t = st.value.test
-        if ast.unparse(t) in (f"{absvar} & 1 != 0", f"{absvar} & 0x1 != 0") or (
-                isinstance(t, ast.Compare) and isinstance(t.left, ast.BinOp) and isinstance(t.left.op, ast.BitAnd)
-                and ast.unparse(t.left.left) == absvar and _hex(t.left.right) == 1 and isinstance(t.ops[0], ast.NotEq)
-                and _hex(t.comparators[0]) == 0):
+        if _mask_test(st.value.test) == (absvar, 1):
             c0, one = _hex(st.value.body), _hex(st.value.orelse)
             init_ok = one == 1 << 128 and c0 is not None
             consts[0] = (c0, st)
@@ -149,10 +205,7 @@ def tickmath_shape(model, res):
     k = 1
     while i < len(body) and isinstance(body[i], ast.If) and k <= 19:
         st = body[i]
-        t = st.test
-        good = (not st.orelse and len(st.body) == 1 and isinstance(t, ast.Compare) and isinstance(t.left, ast.BinOp)
-                and isinstance(t.left.op, ast.BitAnd) and ast.unparse(t.left.left) == absvar
-                and _hex(t.left.right) == 1 << k and isinstance(t.ops[0], ast.NotEq) and _hex(t.comparators[0]) == 0)
+        good = not st.orelse and len(st.body) == 1 and _mask_test(st.test) == (absvar, 1 << k)
         c = None
         if good:
             a = st.body[0]
@@ -178,42 +231,22 @@ def tickmath_shape(model, res):
         where = body[i] if i < len(body) else f.node
         problems.append((where, f"step k={k} (mask {hex(1 << k)}) is missing, nested (elif), out of order or not of the form "
                                 f"`if |tick| & {hex(1 << k)} != 0: ratio = (ratio * C) >> 128`"))
-    # inversion
-    inv_ok = False
-    if i < len(body) and isinstance(body[i], ast.If):
-        st = body[i]
-        if ast.unparse(st.test) == f"{tick} > 0" and not st.orelse and len(st.body) == 1:
-            try:
-                v = canon(st.body[0].value, [rvar])
-                from ..vn import floor_of
-                want = floor_of(Rat.const((1 << 256) - 1) / sym(rvar))
-                inv_ok = v == want or v == Rat.atom(("int", want))
-            except Unreadable:
-                pass
-        res.ob("R-SHAPE", "inversion floor((2^256-1)/ratio) iff tick > 0", f.loc(st), ok=inv_ok, detail=ast.unparse(st.test))
-        if not inv_ok:
-            problems.append((st, f"inversion step is `if {ast.unparse(st.test)}: {ast.unparse(st.body[0])[:70]}`"))
-        i += 1
-    else:
-        problems.append((f.node, "inversion step `if tick > 0` not found after the 19 mask steps"))
-    # final round-up
-    fin_ok = False
-    rest = body[i:]
-    retexpr = None
-    for s in rest:
-        if isinstance(s, ast.Assign):
-            retexpr = s.value
-        if isinstance(s, ast.Return) and not isinstance(s.value, ast.Name):
-            retexpr = s.value
-    if retexpr is not None:
-        txt = ast.unparse(retexpr).replace(" ", "")
-        fin_ok = txt in (f"({rvar}>>32)+(0if{rvar}%(1<<32)==0else1)", f"({rvar}>>32)+(1if{rvar}%(1<<32)!=0else0)",
-                         f"({rvar}>>32)+(0if{rvar}%4294967296==0else1)")
-    res.ob("R-SHAPE", "final step divides by 2^32 rounding up", f.loc(), ok=fin_ok)
-    if not fin_ok:
-        problems.append((f.node, "the final Q128.128 -> Q64.96 step is not `(ratio >> 32) + (0 if ratio % 2^32 == 0 else 1)` (round up)"))
+    # inversion and final round-up: the rest of the body as a function of (tick, ratio)
+    if rvar is not None and steps_ok:
+        try:
+            tail = _piece_paths(model, f, "tail", [tick, rvar], body[i:])
+            ref = _src_paths(model, f, REF_TAIL.replace("ratio", rvar).replace("tick", tick))
+            tail_ok, why = same_function(tail, ref)
+        except Unreadable as e:
+            raise AnalysisError(f"C06: tail of get_sqrt_ratio_at_tick not readable ({e})")
+        res.ob("R-SHAPE", "inversion floor((2^256-1)/ratio) iff tick > 0, then division by 2^32 rounding up", f.loc(body[i] if i < len(body) else f.node),
+               ok=tail_ok)
+        if not tail_ok:
+            problems.append((body[i] if i < len(body) else f.node,
+                             f"after the 19 steps the function is not `if tick > 0: ratio = (2^256-1)//ratio; return (ratio >> 32) + "
+                             f"(0 if ratio % 2^32 == 0 else 1)`: {why[:400]}"))
     for node, msg in problems:
-        res.find("R-SHAPE", f.qualname, msg, f.loc(node), f"get_sqrt_ratio_at_tick: {msg}")
+        res.find("R-SHAPE", f.qualname, msg.split(":")[0][:120], f.loc(node), f"get_sqrt_ratio_at_tick: {msg}")
     # constants: closed form oracle
     getcontext().prec = 120
     n = 0
@@ -234,23 +267,10 @@ def tickmath_shape(model, res):
 
 
 def floor_rule(model, res):
-    f = model.func("uniswap.helper._sqrt_price_to_tick")
-    rets = [n for n in ast.walk(f.node) if isinstance(n, ast.Return)]
-    if len(rets) != 1:
-        raise AnalysisError("C06: _sqrt_price_to_tick shape changed")
-    v = rets[0].value
-    ok = isinstance(v, ast.Call) and ast.unparse(v.func) in ("math.floor", "floor") and len(v.args) == 1 \
-        and isinstance(v.args[0], ast.Call) and ast.unparse(v.args[0].func) in ("math.log", "log")
-    if not ok and isinstance(v, ast.Call) and ast.unparse(v.func) == "int" and isinstance(v.args[0], ast.Call) \
-            and ast.unparse(v.args[0].func) in ("math.floor", "floor"):
-        ok = True
-    res.ob("R-SIGN", "sqrt -> tick floors the logarithm (sign of the log is unknown)", f.loc(rets[0]), ok=ok,
-           detail=ast.unparse(v))
-    if not ok:
-        res.find("R-SIGN", f.qualname, "logarithm is not floored", f.loc(rets[0]),
-                 f"`{ast.unparse(v)}`: int() truncates towards zero, which is the ceiling for negative ticks; the greatest "
-                 f"tick whose sqrt price does not exceed the input requires math.floor (a price strictly between ticks -6 "
-                 f"and -5 maps to -5)")
+    formula_check(res, model, "uniswap.helper._sqrt_price_to_tick",
+                  "def _sqrt_price_to_tick(sqrt_price):\n    return math.floor(math.log(sqrt_price, SQRT_1p0001))\n",
+                  "sqrt -> tick floors the logarithm (the greatest tick whose sqrt price does not exceed the input; int() would "
+                  "truncate towards zero, the ceiling for negative ticks)", rule="R-SIGN")
 
 
 def run(model, tier="quick"):
